@@ -12,7 +12,8 @@ Inductive literal :=
 | LNull | LInt (z : Z) | LFloat (f : flt) | LBool (b : bool) | LStr (s : str) | LRaw (s : str)
 | LDate (s : str) | LTime (s : str) | LTimestamp (s : str) | LUnit (n : Z) (u : str).
 
-Inductive ipart := IStr (s : str) | IExpr (path : list str).
+(* an interpolated expression is an identifier path with an optional format specifier: {a.b:>10} *)
+Inductive ipart := IStr (s : str) | IExpr (path : list str) (format : option str).
 
 Inductive atom :=
 | AIdent (path : list str)
@@ -77,6 +78,9 @@ Definition fail_all : parsers := {|
   q_call := fun _ => None; q_args := fun _ => None; q_items := fun _ _ => None |}.
 
 Definition is_named (e : expr) : bool := match e with ENamed _ _ => true | _ => false end.
+(* `expr.kind`: the node without its alias.  func_call with no arguments returns `name.kind` re-wrapped, so the alias
+   of a parenthesised `(x = a)` is lost there; maybe_aliased: `alias.or(expr.alias)`, the outer alias wins *)
+Definition unalias (e : expr) : expr := match e with EAlias _ x => x | _ => e end.
 (* func_call: named arguments go to a map, positional ones keep their order *)
 Definition named_first (args : list expr) : list expr :=
   filter is_named args ++ filter (fun a => negb (is_named a)) args.
@@ -186,7 +190,7 @@ Section Parser.
       match q_bin P 0 ts with
       | Some (f, r) =>
           match q_args P r with
-          | Some ([], r') => Some (f, r')
+          | Some ([], r') => Some (unalias f, r')
           | Some (args, r') => Some (ECall f (named_first args), r')
           | None => None
           end
@@ -201,7 +205,7 @@ Section Parser.
           end
       | TAlias n :: r =>
           match q_bin P 0 r with
-          | Some (e, r1) => match q_args P r1 with Some (rest, r2) => Some (EAlias n e :: rest, r2) | None => None end
+          | Some (e, r1) => match q_args P r1 with Some (rest, r2) => Some (EAlias n (unalias e) :: rest, r2) | None => None end
           | None => None
           end
       | t :: _ =>
@@ -249,11 +253,16 @@ Section Parser.
 End Parser.
 
 (* ------------------------------------------------------------------ well-formed trees *)
-(* Shapes the parser can produce (and the printer is meant for): aliases only on tuple items, positional arguments and
-   pipeline elements; named arguments only in argument lists and before the positional ones; calls have an argument;
-   parenthesised pipelines have two or more elements; case lists are pairs. *)
+(* Shapes the parser can produce (and the printer is meant for).  An alias is a field of every pr::Expr: it survives
+   on tuple items, pipeline elements and positional arguments (written bare) and -- inside parentheses -- on operands
+   of binary and unary operators, range bounds, callees and named-argument values (`a + (x = b)`, `(x = f) a`,
+   `f n:(x = a) b`: positions repaired by commits 95d15ad and 2a611aa).  func_call drops the alias of an expression
+   that is not a call, so array items and case branches never carry one.  Named arguments only in argument lists and
+   before the positional ones; calls have an argument; parenthesised pipelines have two or more elements; case lists
+   are pairs. *)
 Definition is_alias (e : expr) : bool := match e with EAlias _ _ => true | _ => false end.
 Definition plain (e : expr) : bool := negb (is_alias e) && negb (is_named e).
+Definition operand (e : expr) : bool := negb (is_named e).
 
 Fixpoint named_prefix (l : list expr) : bool :=
   match l with
@@ -264,13 +273,13 @@ Fixpoint named_prefix (l : list expr) : bool :=
 Fixpoint wf (e : expr) : bool :=
   match e with
   | EAtom _ | ERng0 => true
-  | EBin _ l r => plain l && plain r && wf l && wf r
-  | EUn _ x => plain x && wf x
-  | ERng l r => plain l && plain r && wf l && wf r
-  | ERngL l => plain l && wf l
-  | ERngR r => plain r && wf r
+  | EBin _ l r => operand l && operand r && wf l && wf r
+  | EUn _ x => operand x && wf x
+  | ERng l r => operand l && operand r && wf l && wf r
+  | ERngL l => operand l && wf l
+  | ERngR r => operand r && wf r
   | ECall f args =>
-      plain f && wf f && negb (match args with [] => true | _ => false end) && named_prefix args &&
+      operand f && wf f && negb (match args with [] => true | _ => false end) && named_prefix args &&
       (fix go (l : list expr) : bool := match l with [] => true | a :: t => wf a && go t end) args
   | EGroup k es =>
       (match k with
@@ -281,7 +290,7 @@ Fixpoint wf (e : expr) : bool :=
        end) &&
       (fix go (l : list expr) : bool := match l with [] => true | a :: t => wf a && go t end) es
   | EAlias _ x => plain x && wf x
-  | ENamed _ x => plain x && wf x
+  | ENamed _ x => operand x && wf x
   end.
 
 (* every operator index of the tree is one of the nb binary / nu unary operators of the tables *)
